@@ -50,8 +50,69 @@ def _unit(name, props, crate, module, desc="", functions=(), timeout=180, tier="
 
 MATCHER = "grep-matcher"
 GLOBSET = "globset"
+PRINTER = "grep-printer"
 
 UNITS = [
+    unit("c09_base64_roundtrip", ["C09"], PRINTER, "jsont::verif_kani",
+         "jsont::base64_standard on fully symbolic <=5 bytes: RFC 4648 reference decoder recovers exactly the input; length, padding",
+         ["jsont::base64_standard"], timeout=900),
+    unit("c09_data_from_bytes", ["C09"], PRINTER, "jsont::verif_kani",
+         "jsont::Data::from_bytes on fully symbolic <=4 bytes: Text iff valid UTF-8 (independent validator), bytes preserved",
+         ["jsont::Data::from_bytes"], timeout=900),
+    unit("c10_find_iter_terminated", ["C10", "C19", "C09"], PRINTER, "util::verif_kani",
+         "printer::util::find_iter_at_in_context on a terminated line with a symbolic span table == the pattern's successive "
+         "matches in the line's content", ["util::find_iter_at_in_context", "util::trim_line_terminator", "Matcher::find_iter_at"], timeout=900),
+    unit("c10_find_iter_second_line", ["C10", "C19", "C09"], PRINTER, "util::verif_kani",
+         "find_iter_at_in_context on the second line of a buffer (look-behind context before the range)",
+         ["util::find_iter_at_in_context"], timeout=900),
+    unit("c10_find_iter_unterminated", ["C10", "C19", "C09"], PRINTER, "util::verif_kani",
+         "find_iter_at_in_context on an UNTERMINATED last line: same matches as on its content (incl. an empty match at its end)",
+         ["util::find_iter_at_in_context"], timeout=900),
+    unit("c10_find_iter_unterminated_second", ["C10", "C19", "C09"], PRINTER, "util::verif_kani",
+         "find_iter_at_in_context on an unterminated second line", ["util::find_iter_at_in_context"], timeout=900),
+    unit("c02_linebuffer_step", ["C02"], SEARCHER, "line_buffer::verif_kani",
+         "one LineBuffer::fill (+consume) from an ARBITRARY valid state (4-byte buffer, symbolic contents and positions) with a "
+         "symbolic <=3-byte reader and symbolic read sizes: pending' = pending ++ read, whole lines exposed, offsets consistent",
+         ["LineBuffer::fill", "LineBuffer::roll", "LineBuffer::ensure_capacity", "LineBuffer::consume"], timeout=900),
+    unit("c14_linebuffer_step_quit", ["C14"], SEARCHER, "line_buffer::verif_kani",
+         "one fill from an arbitrary valid state, quit detection: cut at the first binary byte, none exposed, offset recorded",
+         ["LineBuffer::fill"], timeout=900),
+    unit("c14_linebuffer_step_convert", ["C14"], SEARCHER, "line_buffer::verif_kani",
+         "one fill from an arbitrary valid state, convert detection: binary bytes become the terminator, offset recorded",
+         ["LineBuffer::fill", "line_buffer::replace_bytes"], timeout=900),
+    unit("c02_linebuffer_stream_cap1", ["C02"], SEARCHER, "line_buffer::verif_kani",
+         "LineBuffer fill/consume/roll/grow over a FULLY SYMBOLIC <=4-byte source, symbolic read sizes 1..=2, initial capacity "
+         "1 / 3 (eager growth): the exposed stream is exactly the source (no byte lost, duplicated, reordered), final offset = length",
+         ["LineBuffer::fill", "LineBuffer::roll", "LineBuffer::ensure_capacity", "LineBuffer::consume", "LineBuffer::buffer"],
+         timeout=2400, tier="thorough"),
+    unit("c02_linebuffer_stream_cap3", ["C02"], SEARCHER, "line_buffer::verif_kani",
+         "LineBuffer fill/consume/roll/grow over a FULLY SYMBOLIC <=4-byte source, symbolic read sizes 1..=2, initial capacity "
+         "1 / 3 (eager growth): the exposed stream is exactly the source (no byte lost, duplicated, reordered), final offset = length",
+         ["LineBuffer::fill", "LineBuffer::roll", "LineBuffer::ensure_capacity", "LineBuffer::consume", "LineBuffer::buffer"],
+         timeout=2400, tier="thorough"),
+    unit("c02_linebuffer_whole_lines_cap1", ["C02"], SEARCHER, "line_buffer::verif_kani",
+         "every fill() exposes whole lines only, except at end of input (symbolic source, reads, capacity)",
+         ["LineBuffer::fill"], timeout=2400, tier="thorough"),
+    unit("c02_linebuffer_whole_lines_cap3", ["C02"], SEARCHER, "line_buffer::verif_kani",
+         "every fill() exposes whole lines only, except at end of input (symbolic source, reads, capacity)",
+         ["LineBuffer::fill"], timeout=2400, tier="thorough"),
+    unit("c14_linebuffer_quit_cap1", ["C14"], SEARCHER, "line_buffer::verif_kani",
+         "quit detection over a fully symbolic source: exactly the bytes before the first NUL are exposed, none is a NUL, "
+         "binary offset == first NUL", ["LineBuffer::fill"], timeout=2400, tier="thorough"),
+    unit("c14_linebuffer_quit_cap3", ["C14"], SEARCHER, "line_buffer::verif_kani",
+         "quit detection over a fully symbolic source: exactly the bytes before the first NUL are exposed, none is a NUL, "
+         "binary offset == first NUL", ["LineBuffer::fill"], timeout=2400, tier="thorough"),
+    unit("c14_linebuffer_convert_cap1", ["C14"], SEARCHER, "line_buffer::verif_kani",
+         "convert detection over a fully symbolic source: every NUL becomes the terminator, other bytes unchanged, offset == first NUL",
+         ["LineBuffer::fill", "line_buffer::replace_bytes"], timeout=2400, tier="thorough"),
+    unit("c14_linebuffer_convert_cap3", ["C14"], SEARCHER, "line_buffer::verif_kani",
+         "convert detection over a fully symbolic source: every NUL becomes the terminator, other bytes unchanged, offset == first NUL",
+         ["LineBuffer::fill", "line_buffer::replace_bytes"], timeout=2400, tier="thorough"),
+    unit("c14_replace_bytes", ["C14"], SEARCHER, "line_buffer::verif_kani",
+         "replace_bytes on fully symbolic bytes/needle/replacement", ["line_buffer::replace_bytes"], timeout=600),
+    unit("c16_linebuffer_read_error", ["C16"], SEARCHER, "line_buffer::verif_kani",
+         "a read() failing at symbolic call index j surfaces from fill(); exposed bytes are a source prefix",
+         ["LineBuffer::fill"], timeout=2400, tier="thorough"),
     unit("c12_file_name", ["C12", "C04"], GLOBSET, "pathutil::verif_kani",
          "pathutil::file_name on a fully symbolic <=6-byte path == last path component (None only for empty, `.`, `..`)",
          ["globset::pathutil::file_name"], timeout=600),
@@ -112,6 +173,19 @@ def nl_bucket(sh):
 
 def maxline(sh):
     return max([sh.lstart[i + 1] - sh.lstart[i] for i in range(sh.nl)] or [1])
+
+
+def multi_rules(ctx):
+    """multi-line strategy: a delivered match may span the whole input"""
+    base = searcher_rules(ctx)
+
+    def f(nl, ml, ln):
+        d = base(nl, ml, ln)
+        d[r"RecSink::same_bytes\.0"] = ln + 1
+        d[r"^memchr::memchr\.0"] = ln + 1
+        d[r"^memchr::memrchr\.0"] = ln + 1
+        return d
+    return f
 
 
 def searcher_rules(ctx):
@@ -209,7 +283,8 @@ FAMILIES = [
     ShapeFamily("c03_slice_passthru", ["C03", "C01"], SEARCHER, CORE_MOD, GEN,
                 "slow line path end-to-end == grep model with passthru ON; symbolic hit table, invert, "
                 "line numbers, stop-on-nonmatch",
-                SLOW_E2E_FUNCS, timeout=600, rules=searcher_rules(2)),
+                SLOW_E2E_FUNCS, timeout=600, rules=searcher_rules(2),
+                quick_shapes=["q_empty", "q_one_unterm", "q_blank", "q_two", "q_blank_mid", "q_blank_last", "q_crlf_blank", "q_nul", "q_four"]),
     ShapeFamily("c03_fast_confirmed", ["C03", "C01"], SEARCHER, CORE_MOD, GEN,
                 "FAST line path end-to-end (match_by_line_fast, find_by_line_fast, fast_invert), matcher reports Confirmed "
                 "offsets == grep model; all hit patterns x invert x (A,B) in {(0,0),(1,1),(2,0),(0,2)} enumerated in-harness "
@@ -235,7 +310,7 @@ FAMILIES = [
                 ("Core::find_by_line_fast", "lines::locate", "lines::without_terminator"), timeout=900,
                 rules=searcher_rules(2), shape_filter=lambda sh: sh.nl >= 2),
     ShapeFamily("c02_reader_ctx", ["C02"], SEARCHER, CORE_MOD, GEN,
-                "ReadByLine over LineBufferReader, symbolic read sizes 1..=3, symbolic capacity 1..=4 (eager growth) "
+                "ReadByLine over LineBufferReader, (capacity, read size) in {(1,1),(2,3),(4,2)} with eager growth "
                 "== grep model (== slice strategy); A,B in 0..=1, invert, line numbers",
                 READER_FUNCS, timeout=900, rules=searcher_rules(2), shape_filter=lambda sh: sh.nl <= 3 and len(sh.hay) <= 6),
     ShapeFamily("c02_reader_stop", ["C02"], SEARCHER, CORE_MOD, GEN,
@@ -255,16 +330,24 @@ FAMILIES = [
                 "reader strategy: read() fails (Other/Interrupted) at symbolic call index j: error returned, no finish, prefix",
                 READER_FUNCS, timeout=900, rules=searcher_rules(2), shape_filter=lambda sh: sh.nl <= 2 and len(sh.hay) <= 4),
     ShapeFamily("c13_multiline", ["C13"], SEARCHER, CORE_MOD, GEN,
-                "MultiLine::run over a symbolic span table E[s] (look-behind-free) == lines covered by successive matches, "
-                "merged runs, A,B in 0..=1, invert, line numbers",
-                MULTI_FUNCS, timeout=900, rules=searcher_rules(2), shape_filter=lambda sh: sh.nl <= 3 and len(sh.hay) <= 7),
-    ShapeFamily("c13_multiline_passthru", ["C13"], SEARCHER, CORE_MOD, GEN,
-                "MultiLine::run, passthru ON", MULTI_FUNCS, timeout=900, rules=searcher_rules(2),
-                shape_filter=lambda sh: sh.nl <= 3 and len(sh.hay) <= 7),
+                "MultiLine::run == lines covered by the successive matches of a span table (merged runs, contexts, invert, "
+                "passthru, numbering); EVERY span table of the shape (<=3 bytes) / every table with <=2 match starts (4-5 bytes) "
+                "x 5 configurations enumerated in-harness; line numbering symbolic",
+                MULTI_FUNCS, timeout=1500, rules=multi_rules(2), unwind=lambda sh: 800,
+                quick_shapes=["q_empty", "q_one_unterm", "q_one", "q_blank", "m_two_unterm", "q_two"], thorough_shapes=["m_blank_mid", "m_three"]),
     ShapeFamily("c13_multiline_lookbehind", ["C13"], SEARCHER, CORE_MOD, GEN,
-                "MultiLine::run with look-behind patterns: answers at a resumption point taken as start-of-haystack (E0) "
-                "are unconstrained; result must follow the whole-input table E",
-                MULTI_FUNCS, timeout=900, rules=searcher_rules(2), shape_filter=lambda sh: sh.nl <= 3 and len(sh.hay) <= 7),
+                "MultiLine::run with look-behind patterns: besides the span table E, every alternative answer E0[p] at a "
+                "resumption point taken as start-of-haystack is enumerated; the result must follow the whole-input table E",
+                MULTI_FUNCS, timeout=1500, rules=multi_rules(2), unwind=lambda sh: 800,
+                quick_shapes=["q_one_unterm", "q_one", "m_two_unterm", "q_two"], thorough_shapes=[]),
+    ShapeFamily("c16_multiline_refuse", ["C16"], SEARCHER, CORE_MOD, GEN,
+                "multi-line strategy: sink refuses at every call index k (enumerated) for every span table: prefix + exactly one finish",
+                MULTI_FUNCS, timeout=1500, rules=multi_rules(2), unwind=lambda sh: 800,
+                quick_shapes=["q_one", "m_two_unterm", "q_two"], thorough_shapes=[]),
+    ShapeFamily("c16_multiline_error", ["C16"], SEARCHER, CORE_MOD, GEN,
+                "multi-line strategy: sink fails at every call index k (enumerated): error returned, prefix, no finish",
+                MULTI_FUNCS, timeout=1500, rules=multi_rules(2), unwind=lambda sh: 800,
+                quick_shapes=["q_one", "m_two_unterm"], thorough_shapes=[]),
 ]
 
 
@@ -428,7 +511,7 @@ def run_smt(group, ctx):
             return [{"name": o.name, "fn": o.name, "status": K.INCONCLUSIVE, "engine": "rgsmt",
                      "reason": "rgsmt does not build against the tree: " + err, "desc": o.desc} for o in group]
         for o in group:
-            nsh = max(1, min(ctx["jobs"], 14))
+            nsh = 12  # z3 processes are light (<= 300 MB each)
             procs = []
             for i in range(nsh):
                 out = os.path.join(sc.root, "%s.%d.json" % (o.name, i))
@@ -547,7 +630,7 @@ def evidence(prop, tier, seed, obls, results, summ):
         "stubs": ["memchr crate replaced by loop model (.cache/memchr-kani, generated from registry memchr-2.7.4)"],
         "symex_time_s": round(sum(r.get("symex_s") or 0 for r in results), 2),
         "solver_time_s": round(sum(r.get("solver_s") or 0 for r in results), 2),
-        "per_obligation": [{k: r.get(k) for k in ("name", "status", "symex_s", "solver_s", "wall_s", "checks", "reason")}
+        "per_obligation": [{k: r.get(k) for k in ("name", "status", "symex_s", "solver_s", "wall_s", "checks", "reason", "playback")}
                            for r in results],
         "exhaustive": False,
         "filtered_run": summ["filtered"],
